@@ -195,6 +195,9 @@ class H5Reader:
                 if attribute.dtype in [float, "float64", "float32"]:
                     attribute[attribute == FLOAT_NDV] = np.nan
 
+                if attribute.dtype == object and len(attribute) == 0:
+                    attribute = attribute.astype(str)
+
                 if (
                     attribute.dtype == object
                     and len(attribute) > 0
